@@ -207,7 +207,7 @@ def scenarios(pid, tier, seed):
             {"args": ["scen", "family=setups", "count=%d" % (2000 if q else 60000), "depth=0", "ops=mat,flipmat,score:0,score:7,score:255", "sync=1", S], "shards": 16},
             {"args": ["scen", "family=walk", "count=%d" % (32 if q else 320), "len=60", "ops=mat,flipmat,score:0,score:3", "sync=1", S], "shards": 16},
             # every terminal position of the corpus (mates, stalemates incl. those with an immobile piece left) and its neighbours
-            {"args": ["scen", "family=tree", "depth=1", "budget=12", "names=stalemate,mated,fools-mate,underpromo,single-reply,castle-gives-mate,back-rank", "ops=mat,flipmat,score:0,score:4,score:255", "sync=1", S], "shards": 4},
+            {"args": ["scen", "family=tree", "depth=1", "budget=12", "names=stalemate,mated,fools-mate,underpromo,single-reply,castle-gives-mate,back-rank,max-material,nine-queens", "ops=mat,flipmat,score:0,score:4,score:255", "sync=1", S], "shards": 4},
         ]
     if pid == "C19":
         return [
